@@ -121,6 +121,23 @@ Proof.
 Qed.
 
 (* ---- methods that make calls ---- *)
+(* TAMPERING: at every position p of the method's own body that is not strictly inside a call
+   stub (before / after each of its own instructions, before each call, after each return from a
+   callee), the untampered run reaches p with the frame live (the saved-ra slot holds ra); if at
+   that moment the slot is overwritten with ANY other value X, the continued run - the rest of the
+   body, all further callees - arrives at the method's own check sequence and the next step is the
+   TRAP of its ecall: the `ret` through the forged address is never executed. *)
+Definition ftamper_concl (m : method) (s : mstate) : Prop :=
+  let S := rget s 2 in
+  exists idx, Forall2 (site_ok c ms m) idx (m_callees m) /\
+  forall p : nat, (p <= Z.to_nat (m_body m))%nat ->
+    (forall i, In i idx -> ~ (Z.to_nat i - 3 < p < Z.to_nat i - 3 + 5)%nat) ->
+    exists k sk, run v L k s = (Next sk, k) /\ pc sk = m_addr m + 4 * (3 + Z.of_nat p) /\
+      load_bytes (mem sk) (S - 24) 8 = rget s 1 /\
+      forall X, 0 <= X < W64 -> X <> rget s 1 ->
+        exists n st, run v L n (set_mem sk (store_bytes (mem sk) (S - 24) 8 X)) = (Next st, n) /\
+          pc st = m_addr m + 4 * (3 + m_body m + 5) /\ step v L st = Trap st.
+
 Section CallCase.
 Variable f : nat.
 Variable id : nat.
@@ -135,7 +152,15 @@ Let N := need_method c ms (S f) id.
 Lemma N_eq : N = 32 + fold_right (fun cal a => Z.max (need_method c ms f cal) a) 0 (m_callees m).
 Proof. unfold N. cbn [need_method]. rewrite Hid, (fframe_call m Hnl). reflexivity. Qed.
 
-Lemma fcall_case : fcontract N (steps_fixer ms (S f) id) m.
+Lemma fcall_both : forall s rest, code_loaded img s -> pc s = m_addr m -> env_ok v L dr s ->
+    let S := rget s 2 in
+    S mod 8 = 0 -> N <= S < W64 -> stk_lo L <= S - N -> S <= stk_hi L ->
+    0 <= rget s 8 < W64 -> 0 <= rget s 1 < W64 ->
+    cfi s = rget s 1 :: rest ->
+    (exists s', run v L (steps_fixer ms (Datatypes.S f) id) s = (Next s', steps_fixer ms (Datatypes.S f) id) /\ pc s' = (u64 (rget s 1 + 0) / 2) * 2 /\
+      (forall r, 0 <= r -> wr c r = false -> r <> 28 -> rget s' r = rget s r) /\
+      mem_frame c L s s' (S - N) S /\ dom s' = dom s /\ cfi s' = rest /\ env_ok v L dr s') /\
+    ftamper_concl m s.
 Proof.
   intros s rest Hcode Hpc He S HSal HSr HSlo HShi Hs0 Hra Hcfi.
   assert (Hm : In m ms) by (eapply nth_error_In; exact Hid).
@@ -183,15 +208,16 @@ Proof.
     - rewrite map_length, Lpro. lia.
     - apply fx_side. }
   (* ---------- the invariant of the body walk ---------- *)
-  set (Inv := fun s' : mstate =>
+  set (InvX := fun (X : Z) (s' : mstate) =>
      code_loaded img s' /\ env_ok v L dr s' /\ rget s' 2 = S - 32 /\
      (forall r, 0 <= r -> wr c r = false -> r <> 1 -> r <> 2 -> r <> 28 -> rget s' r = rget s r) /\
-     load_bytes (mem s') (S - 32) 8 = rget s 8 /\ load_bytes (mem s') (S - 24) 8 = rget s 1 /\
+     load_bytes (mem s') (S - 32) 8 = rget s 8 /\ load_bytes (mem s') (S - 24) 8 = X /\
      mem_frame c L s s' (S - N) S /\ dom s' = dom s /\ cfi s' = cfi s).
+  set (Inv := InvX (rget s 1)).
   assert (Mf2 : mem_frame c L s s2 (S - N) S).
   { intros a Ha Hdta Hrg. rewrite M2. rewrite !mget_store_other by lia. reflexivity. }
   assert (I2 : Inv s2).
-  { unfold Inv. split.
+  { unfold Inv, InvX. split.
     { apply (code_loaded_same c img L HP s s2); [|exact Hcode_all]. eapply (frame_same_code c img L HP); [exact Mf2|lia|lia]. }
     split.
     { destruct He as [E1 E2']. constructor; [rewrite R2 by lia; exact E1|rewrite Dm2; exact E2']. }
@@ -225,10 +251,10 @@ Proof.
   assert (Hnd : NoDup sites).
   { unfold sites. apply NoDup_map_sub3; [|intros i Hi; apply (Hidx i Hi)].
     unfold disjoint_slots in Hdis. rewrite Ecs in Hdis. apply (slots_NoDup 6); [lia|exact Hdis]. }
-  assert (Hplain_step : forall j s', (j < nb)%nat -> is_site sites j = false -> inside 5 sc j = false ->
-            Inv s' -> pc s' = addr j ->
-            exists s1, run v L 1 s' = (Next s1, 1%nat) /\ pc s1 = addr (j + 1)%nat /\ Inv s1).
-  { intros j s' Hj Hns Hnsec (I1 & I2' & I3 & I4 & I5 & I6 & I7 & I8 & I9) Hpcj.
+  assert (Hplain_step : forall X j s', (j < nb)%nat -> is_site sites j = false -> inside 5 sc j = false ->
+            InvX X s' -> pc s' = addr j ->
+            exists s1, run v L 1 s' = (Next s1, 1%nat) /\ pc s1 = addr (j + 1)%nat /\ InvX X s1).
+  { intros X j s' Hj Hns Hnsec (I1 & I2' & I3 & I4 & I5 & I6 & I7 & I8 & I9) Hpcj.
     (* the position is not covered by a stub *)
     assert (Hnc : ~ coveredF idx (List.length pro + j)).
     { intros (i & Hi & Hc'). specialize (Hidx i Hi). rewrite Lpro in Hc'.
@@ -267,7 +293,7 @@ Proof.
       + apply fx_side.
       + cbn [exec_at]. rewrite Hpcj, Z.eqb_refl, Ex. reflexivity.
     - rewrite Pc1, Hpcj. unfold addr. lia.
-    - destruct Fr as (Rf & Mf & Df & Cf). unfold Inv.
+    - destruct Fr as (Rf & Mf & Df & Cf). unfold InvX.
       assert (Mf' : mem_frame c L s' s1 (S - N) S) by (intros a Ha Hd' _; apply Mf; assumption).
       split; [apply (code_loaded_same c img L HP s' s1); [|exact I1]; eapply (frame_same_code c img L HP); [exact Mf'|lia|lia]|].
       split; [exact He1|]. split; [rewrite Rf by (lia || assumption); exact I3|].
@@ -275,9 +301,9 @@ Proof.
       split; [rewrite (load_bytes_ext 8 (mem s1) (mem s')); [exact I5|]; intros b Hb; apply Mf; lia|].
       split; [rewrite (load_bytes_ext 8 (mem s1) (mem s')); [exact I6|]; intros b Hb; apply Mf; lia|].
       split; [eapply (mem_frame_trans c L); [exact I7|exact Mf'|lia|lia]|]. split; congruence. }
-  assert (Hsite_step : forall j k s', In (j, k) sc -> Inv s' -> pc s' = addr j ->
-            exists s1, run v L k s' = (Next s1, k) /\ pc s1 = addr (j + 5)%nat /\ Inv s1).
-  { intros j k s' Hjk (I1 & I2' & I3 & I4 & I5 & I6 & I7 & I8 & I9) Hpcj.
+  assert (Hsite_step : forall X j k s', In (j, k) sc -> InvX X s' -> pc s' = addr j ->
+            exists s1, run v L k s' = (Next s1, k) /\ pc s1 = addr (j + 5)%nat /\ InvX X s1).
+  { intros X j k s' Hjk (I1 & I2' & I3 & I4 & I5 & I6 & I7 & I8 & I9) Hpcj.
     unfold sc in Hjk. apply in_map_iff in Hjk. destruct Hjk as ([i cal] & Ejk & Hic). cbn [fst snd] in Ejk.
     inversion Ejk as [[Ej Ek]]. clear Ejk.
     assert (Hi : In i idx) by (eapply in_combine_l; exact Hic).
@@ -342,7 +368,7 @@ Proof.
       rewrite (run_app v L 5 (steps_fixer ms f cal) s' s1 R1). rewrite R3. reflexivity.
     - rewrite Pc3, Hra1. rewrite Z.add_0_r. rewrite u64_small by (clear - Hlo Hhi Hib Hlen Hc0 Hc64; lia).
       unfold addr. rewrite Nat2Z.inj_add. clear - Hal Eji Hib. Z.div_mod_to_equations; lia.
-    - rewrite Hsp1 in Mf3. unfold Inv.
+    - rewrite Hsp1 in Mf3. unfold InvX.
       assert (Mf' : mem_frame c L s' s3 (S - N) S).
       { intros a Ha Hd' Hrg. rewrite Mf3; [rewrite Cmem; reflexivity|exact Ha|exact Hd'|]. clear - Hrg HN Hmx Hge Hneed0. lia. }
       split; [apply (code_loaded_same c img L HP s' s3); [|exact I1]; eapply (frame_same_code c img L HP); [exact Mf'|lia|lia]|].
@@ -358,7 +384,82 @@ Proof.
       split; [eapply (mem_frame_trans c L); [exact I7|exact Mf'|lia|lia]|]. split; congruence. }
   (* walk the body *)
   rewrite <- Esites in Hnd, Hapart, Hfit, Hplain_step.
-  destruct (walk_cnt_k v L Inv addr 5 sc nb ltac:(lia) Hnd Hapart Hfit Hplain_step Hsite_step nb O s2) as (s4 & n & R4 & P4 & I4' & Hn).
+  assert (Tamper : ftamper_concl m s).
+  { unfold ftamper_concl. exists idx. split; [exact Hsites|]. fold S. intros p Hp Hnin.
+    assert (Hpnb : (p <= nb)%nat) by (unfold nb; rewrite Hlb, Hl0; exact Hp).
+    assert (Hinp : inside 5 sc p = false).
+    { unfold inside. destruct (existsb (fun i => Nat.ltb i p && Nat.ltb p (i + 5)) (map fst sc)) eqn:E; [|reflexivity].
+      apply existsb_exists in E. destruct E as (j & Hj & E). apply andb_prop in E. destruct E as [Eq1 Eq2].
+      apply Nat.ltb_lt in Eq1. apply Nat.ltb_lt in Eq2. rewrite Esites in Hj.
+      destruct (Hsite_in j Hj) as (zi & Hzi & Ezi). exfalso. apply (Hnin zi Hzi). specialize (Hidx zi Hzi). lia. }
+    destruct (walk_reach_k v L Inv addr 5 sc nb ltac:(lia) Hapart (Hplain_step (rget s 1)) (Hsite_step (rget s 1)) p s2 Hpnb Hinp I2)
+      as (sk & k & Rk & Pk & Ik).
+    { rewrite P2. unfold addr. lia. }
+    exists (3 + k)%nat, sk. split; [rewrite (run_app v L 3 k s s2 Run1), Rk; reflexivity|].
+    split; [rewrite Pk; unfold addr; reflexivity|].
+    pose proof Ik as (K1 & K2 & K3 & K4 & K5 & K6 & K7 & K8 & K9).
+    split; [exact K6|].
+    intros X HX HneX.
+    set (sk' := set_mem sk (store_bytes (mem sk) (S - 24) 8 X)).
+    assert (Mfk : mem_frame c L sk sk' (S - N) S).
+    { intros a Ha Hdta Hrg. unfold sk'. cbn [set_mem mem]. rewrite mget_store_other by (clear - Ha Hrg HN Hmx HSr HSlo Hsp0; lia). reflexivity. }
+    assert (Ik' : InvX X sk').
+    { unfold InvX. split.
+      { apply (code_loaded_same c img L HP sk sk'); [|exact K1]. eapply (frame_same_code c img L HP); [exact Mfk|lia|lia]. }
+      split; [destruct K2 as [Ke1 Ke2]; constructor; [exact Ke1|exact Ke2]|].
+      split; [exact K3|]. split; [exact K4|].
+      split; [unfold sk'; cbn [set_mem mem]; rewrite load_store_other by lia; exact K5|].
+      split.
+      { unfold sk'. cbn [set_mem mem]. rewrite load_store_same by lia. change (2 ^ (8 * Z.of_nat 8)) with W64. apply Z.mod_small. exact HX. }
+      split; [eapply (mem_frame_trans c L); [exact K7|exact Mfk|lia|lia]|]. split; [exact K8|exact K9]. }
+    destruct (walk_cnt_k v L (InvX X) addr 5 sc nb ltac:(lia) Hnd Hapart Hfit (Hplain_step X) (Hsite_step X) (nb - p)%nat p sk')
+      as (s4 & n & R4 & P4 & I4' & _).
+    { lia. }
+    { exact Hinp. }
+    { exact Ik'. }
+    { exact Pk. }
+    destruct I4' as (J1 & J2 & J3 & J4 & J5 & J6 & J7 & J8 & J9).
+    assert (HAend : 0 <= addr nb /\ addr nb + 28 < W64) by (unfold addr; clear - Hlo Hhi Hlen Hc0 Hc64; lia).
+    destruct (fixer_forged_return_prefix L Hsc s4 (addr nb) S (rget s 8) X (rget s 1) rest P4 J3 HSal ltac:(fold S; lia) ltac:(lia) HShi J5 J6 Hs0 HX)
+      as (s5 & E5 & P5 & C5 & M5 & D5); try (apply HAend); try assumption.
+    { rewrite J9. exact Hcfi. }
+    pose proof J1 as J1'. unfold code_loaded in J1'. rewrite Forall_forall in J1'. pose proof (J1' m Hm) as Hcm4.
+    fold A in Hcm4. fold ws in Hcm4. rewrite Ews in Hcm4.
+    assert (Hce : code_at (mem s4) (addr nb) (map generate epi)).
+    { intros k0 w Hk. replace (addr nb + 4 * Z.of_nat k0) with (A + 4 * Z.of_nat (3 + nb + k0)%nat) by (unfold addr; lia).
+      apply Hcm4. rewrite nth_error_app2 by (rewrite map_length; lia). rewrite map_length, Lpro.
+      rewrite nth_error_app2 by (rewrite map_length; unfold nb; lia). rewrite map_length.
+      replace (3 + nb + k0 - 3 - List.length body)%nat with k0 by (unfold nb; clear; lia). exact Hk. }
+    pose proof (decode_all_Forall2 _ _ _ De) as FDe.
+    assert (Hepi7 : exists e1 e2 e3 e4 e5 e6 e7, epi = [e1; e2; e3; e4; e5; e6; e7]).
+    { destruct epi as [|e1 [|e2 [|e3 [|e4 [|e5 [|e6 [|e7 [|e8 tl]]]]]]]]; try discriminate Lepi. eauto 10. }
+    destruct Hepi7 as (e1 & e2 & e3 & e4 & e5 & e6 & e7 & Eepi). rewrite Eepi in Hce, FDe. cbn [map] in Hce, FDe.
+    inversion FDe as [|? ? ? ? F1 FD1]; subst. inversion FD1 as [|? ? ? ? F2 FD2]; subst.
+    inversion FD2 as [|? ? ? ? F3 FD3]; subst. inversion FD3 as [|? ? ? ? F4 FD4]; subst. inversion FD4 as [|? ? ? ? F5 FD5]; subst.
+    inversion FD5 as [|? ? ? ? F6 FD6]; subst.
+    assert (Run3 : run v L 5 s4 = (Next s5, 5%nat)).
+    { change 5%nat with (List.length (firstn 5 fixer_epi_call)). unfold v. rewrite gv_fx.
+      apply (run_block VFixer L (firstn 5 fixer_epi_call) (map generate [e1; e2; e3; e4; e5]) (addr nb) s4 s5 RO); try assumption.
+      - cbn [map firstn fixer_epi_call]. repeat constructor; assumption.
+      - reflexivity.
+      - intros k0 w Hk. apply Hce. cbn [map] in Hk.
+        destruct k0 as [|[|[|[|[|k0]]]]]; cbn [nth_error] in *; try exact Hk. destruct k0; discriminate.
+      - unfold addr. clear - Hal. Z.div_mod_to_equations; lia.
+      - unfold addr. clear - Hlo. lia.
+      - cbn [map List.length]. unfold addr. clear - Hhi Hlen. lia.
+      - cbn [map List.length]. unfold addr. clear - Hh Hlen. lia.
+      - exact I. }
+    exists (n + 5)%nat, s5. split; [rewrite (run_app v L n 5 sk' s4 R4), Run3; reflexivity|].
+    split; [rewrite P5; unfold addr; rewrite <- Lbody; fold nb; lia|].
+    rewrite (step_exec v L s5 (generate e6) Ecall); [reflexivity| | | | | | |].
+    - rewrite P5. unfold addr. clear - Hh Hlen. lia.
+    - rewrite P5. unfold addr. clear - Hal. Z.div_mod_to_equations; lia.
+    - rewrite P5. unfold addr. clear - Hlo. lia.
+    - rewrite P5. unfold addr. clear - Hhi Hlen. lia.
+    - unfold fetch_dom_ok, v. rewrite gv_fx. exact I.
+    - rewrite P5, M5. replace (addr nb + 20) with (addr nb + 4 * Z.of_nat 5) by (clear; lia). apply Hce. reflexivity.
+    - unfold v. rewrite gv_fx. exact F6. }
+  destruct (walk_cnt_k v L Inv addr 5 sc nb ltac:(lia) Hnd Hapart Hfit (Hplain_step (rget s 1)) (Hsite_step (rget s 1)) nb O s2) as (s4 & n & R4 & P4 & I4' & Hn).
   { lia. }
   { unfold inside. destruct (existsb _ (map fst sc)) eqn:Ex; [|reflexivity].
     apply existsb_exists in Ex. destruct Ex as (x & _ & Ex). apply andb_prop in Ex. destruct Ex as [Ex _]. apply Nat.ltb_lt in Ex. lia. }
@@ -425,6 +526,7 @@ Proof.
     { rewrite wsum_zero_all. unfold sc. rewrite map_map. rewrite sum_ones.
       rewrite combine_length, Hlenic, Nat.min_id. reflexivity. }
     rewrite Ws1, Ws2 in Hn. unfold zlen in Hlen. lia. }
+  split; [|exact Tamper].
   rewrite Hcount.
   exists s6. split; [|split].
   { rewrite (run_app v L 3 (n + (5 + 1)) s s2 Run1). rewrite (run_app v L n (5 + 1) s2 s4 R4).
@@ -438,6 +540,19 @@ Proof.
   split; [intros a Ha Hd' Hrg; unfold s6; cbn [set_pc mem]; rewrite M5; apply J7; assumption|].
   split; [unfold s6; cbn [set_pc dom]; congruence|]. split; [unfold s6; cbn [set_pc cfi]; exact C5|].
   destruct J2 as [X1 X2]. constructor; [unfold s6; rewrite rget_set_pc; rewrite R5 by (unfold dr in *; clear - D0 D1 D2 D8 D28; lia); exact X1|unfold s6; cbn [set_pc dom]; rewrite D5; exact X2].
+Qed.
+
+Lemma fcall_case : fcontract N (steps_fixer ms (S f) id) m.
+Proof.
+  intros s rest H1 H2 H3 S0 H4 H5 H6 H7 H8 H9 H10. exact (proj1 (fcall_both s rest H1 H2 H3 H4 H5 H6 H7 H8 H9 H10)).
+Qed.
+
+Lemma fcall_tamper : forall s rest, code_loaded img s -> pc s = m_addr m -> env_ok v L dr s ->
+    rget s 2 mod 8 = 0 -> N <= rget s 2 < W64 -> stk_lo L <= rget s 2 - N -> rget s 2 <= stk_hi L ->
+    0 <= rget s 8 < W64 -> 0 <= rget s 1 < W64 ->
+    cfi s = rget s 1 :: rest -> ftamper_concl m s.
+Proof.
+  intros s rest H1 H2 H3 H4 H5 H6 H7 H8 H9 H10. exact (proj2 (fcall_both s rest H1 H2 H3 H4 H5 H6 H7 H8 H9 H10)).
 Qed.
 End CallCase.
 
@@ -473,6 +588,30 @@ Proof.
   intros id m Hid. apply fmethod_contract_all; [exact Hid|].
   assert (Hm : In m ms) by (eapply nth_error_In; exact Hid).
   destruct (fimg_mok2 m Hm) as (Sh & _ & _). apply (depth_lt_max c img); [exact Hm|apply (sh_depth c m Sh)].
+Qed.
+
+(* THE TAMPER THEOREM: every call-making method of every FIXER image, at every position of its own
+   body outside the stubs: a forged saved return address is trapped by the method's own check *)
+Theorem every_fixer_method_tamper_traps : forall id m,
+  nth_error ms id = Some m -> m_is_leaf m = false ->
+  forall s rest, code_loaded img s -> pc s = m_addr m -> env_ok v L dr s ->
+    rget s 2 mod 8 = 0 -> need_method c ms (max_depth ms) id <= rget s 2 < W64 ->
+    stk_lo L <= rget s 2 - need_method c ms (max_depth ms) id -> rget s 2 <= stk_hi L ->
+    0 <= rget s 8 < W64 -> 0 <= rget s 1 < W64 -> cfi s = rget s 1 :: rest ->
+    ftamper_concl m s.
+Proof.
+  intros id m Hid Hnl.
+  assert (Hm : In m ms) by (eapply nth_error_In; exact Hid).
+  destruct (fimg_mok2 m Hm) as (Sh & _ & _).
+  assert (Hdm : (Z.to_nat (m_depth m) < max_depth ms)%nat) by (apply (depth_lt_max c img); [exact Hm|apply (sh_depth c m Sh)]).
+  destruct (max_depth ms) as [|f] eqn:Emd; [lia|].
+  apply (fcall_tamper f id m Hid Hnl).
+  intros cal cm Hcal Hcm. apply fmethod_contract_all; [exact Hcm|].
+  pose proof (calls_decrease_depth c script img Hsucc) as CD. rewrite Forall_forall in CD.
+  specialize (CD m Hm). rewrite Forall_forall in CD. specialize (CD cal Hcal). fold ms in CD. rewrite Hcm in CD.
+  assert (Hcmin : In cm ms) by (eapply nth_error_In; exact Hcm).
+  destruct (fimg_mok2 cm Hcmin) as (Shc & _ & _).
+  pose proof (sh_depth c cm Shc). pose proof (sh_depth c m Sh). lia.
 Qed.
 End MCF.
 
